@@ -91,6 +91,14 @@ pub fn split_token(s: &str, hdr_len: usize) -> Option<(Vec<u8>, Vec<u8>)> {
     Some((crate::b64::dec(p)?, crate::b64::dec(f)?))
 }
 
+pub fn pname<P: Purpose, const C: bool>() -> String {
+    format!("{}{}", purpose_name::<P>(), if C { "+c" } else { "" })
+}
+
+pub fn header_c<B: Backend, P: Purpose, const C: bool>() -> String {
+    format!("{}{}{}", <B::V as Version>::HEADER, if C { "c" } else { "" }, P::HEADER)
+}
+
 pub fn header<B: Backend, P: Purpose>() -> String {
     format!("{}{}", <B::V as Version>::HEADER, P::HEADER)
 }
@@ -143,7 +151,27 @@ pub fn seal_lib_f<B: Backend, P: Purpose, F: HFooter>(
 where
     B::V: SealingVersion<P>,
 {
-    let purpose = purpose_name::<P>();
+    seal_lib_fc::<B, P, F, false>(rec, st, seal_key, claims, footer, aad, enc_fail, rng_fail)
+}
+
+/// `C`: the payload type declares the encoding suffix "c" (header vNc.purpose.); the purpose recorded is then "<purpose>+c"
+#[allow(clippy::too_many_arguments)]
+pub fn seal_lib_fc<B: Backend, P: Purpose, F: HFooter, const C: bool>(
+    rec: &mut Recorder,
+    st: &mut Stats,
+    seal_key: &[u8],
+    claims: &[u8],
+    footer: &[u8],
+    aad: &[u8],
+    enc_fail: (bool, bool),
+    rng_fail: Option<(usize, bool)>,
+) -> Option<Sealed>
+where
+    B::V: SealingVersion<P>,
+{
+    let base = purpose_name::<P>();
+    let purpose = pname::<P, C>();
+    let purpose = purpose.as_str();
     let key: Key<B::V, P::SealingKey> = key_from_bytes(seal_key).expect("sealing key parses");
     let kid = rec.intern(seal_key);
     let cid = rec.intern(claims);
@@ -154,7 +182,7 @@ where
     spy_take();
     rng::reset(rng::Source::Os, true, rng_fail.map(|x| x.0), rng_fail.map(|x| x.1).unwrap_or(false));
     let r = catch_unwind(AssertUnwindSafe(|| {
-        UnsealedToken::<B::V, P, SpyClaims>::new(SpyClaims(claims.to_vec())).with_footer(F::make(footer)).seal(&key, aad)
+        UnsealedToken::<B::V, P, SpyClaimsS<C>>::new(SpyClaimsS::<C>(claims.to_vec())).with_footer(F::make(footer)).seal(&key, aad)
     }));
     rng::passthrough();
     set_encode_fail(false, false);
@@ -171,7 +199,7 @@ where
         }
         Ok(Ok(tok)) => {
             let text = tok.to_string();
-            let hdr = header::<B, P>();
+            let hdr = header_c::<B, P, C>();
             let parts = if text.starts_with(&hdr) { split_token(&text, hdr.len()) } else { None };
             let Some((payload, tfooter)) = parts else {
                 // the serialisation is not even of the right shape: report it as a failed ToString
@@ -181,9 +209,9 @@ where
             };
             let wid = rec.intern(&payload);
             let tfid = rec.intern(&tfooter);
-            let nonce = if purpose == "local" { payload.get(..nonce_len(B::VER)).unwrap_or(&payload).to_vec() } else { Vec::new() };
-            let fresh: Vec<u64> = if purpose == "local" { vec![rec.intern(&nonce)] } else { vec![] };
-            if purpose == "public" && B::VER == 3 {
+            let nonce = if base == "local" { payload.get(..nonce_len(B::VER)).unwrap_or(&payload).to_vec() } else { Vec::new() };
+            let fresh: Vec<u64> = if base == "local" { vec![rec.intern(&nonce)] } else { vec![] };
+            if base == "public" && B::VER == 3 {
                 st.signatures += 1;
                 let n = payload.len();
                 if n >= 96 && (payload[n - 96] == 0 || payload[n - 48] == 0) {
@@ -228,11 +256,28 @@ pub fn present_f<B: Backend, P: Purpose, F: HFooter>(
 ) where
     B::V: SealingVersion<P>,
 {
-    let purpose = purpose_name::<P>();
+    present_fc::<B, P, F, false>(rec, st, text, unseal_key, aad, mode, verdict, note)
+}
+
+#[allow(clippy::too_many_arguments)]
+pub fn present_fc<B: Backend, P: Purpose, F: HFooter, const C: bool>(
+    rec: &mut Recorder,
+    st: &mut Stats,
+    text: &str,
+    unseal_key: &[u8],
+    aad: &[u8],
+    mode: DecodeMode,
+    verdict: bool,
+    note: Value,
+) where
+    B::V: SealingVersion<P>,
+{
+    let purpose = pname::<P, C>();
+    let purpose = purpose.as_str();
     st.presentations += 1;
     let sid = rec.intern(text.as_bytes());
     spy_take();
-    let parsed = catch_unwind(AssertUnwindSafe(|| SealedToken::<B::V, P, SpyClaims, F>::from_str(text)));
+    let parsed = catch_unwind(AssertUnwindSafe(|| SealedToken::<B::V, P, SpyClaimsS<C>, F>::from_str(text)));
     spy_take();
     let tok = match parsed {
         Err(p) => {
@@ -247,7 +292,7 @@ pub fn present_f<B: Backend, P: Purpose, F: HFooter>(
     };
     // what was parsed, observed through Display and the footer accessor
     let shown = tok.to_string();
-    let hdr = header::<B, P>();
+    let hdr = header_c::<B, P, C>();
     let (payload, footer) = split_token(&shown, hdr.len()).unwrap_or((b"<unsplittable>".to_vec(), Vec::new()));
     let wid = rec.intern(&payload);
     let fid = rec.intern(&footer);
@@ -267,7 +312,7 @@ pub fn present_f<B: Backend, P: Purpose, F: HFooter>(
     rec.emit(json!({"ev":"UnsealCall","be":B::NAME,"ver":B::VER,"purpose":purpose,"wire":pwid,"footer":pfid,"key":kid,"aad":aid,
         "mode":format!("{mode:?}"),"verdict":verdict,"note":note}));
     set_decode_mode(mode);
-    let r = catch_unwind(AssertUnwindSafe(|| tok.unseal(&key, aad, &SpyValidator { verdict })));
+    let r = catch_unwind(AssertUnwindSafe(|| tok.unseal(&key, aad, &SpyValidatorS::<C> { verdict })));
     set_decode_mode(DecodeMode::Ok);
     emit_spy(rec, spy_take());
     match r {
@@ -363,6 +408,20 @@ where
             let aad = &aads[(li / 2 + ki) % aads.len()];
             if let Some(s) = seal_lib::<B, P>(rec, st, &km.seal, &claims, footer, aad, (false, false), None) {
                 present::<B, P>(rec, st, &s.text, &km.unseal, aad, DecodeMode::Ok, true, json!({"cls":"honest"}));
+            }
+        }
+    }
+    // a payload type that declares another encoding (header suffix "c": vNc.purpose.): the same round trip law
+    rec.emit(json!({"ev":"Reset","scenario":format!("rt-suffix-{}-{}", B::NAME, purpose)}));
+    {
+        let km = &kms[kms.len() - 1];
+        learn(rec, purpose, km);
+        for (i, len) in [0usize, 1, 16, 33, 100, 300].into_iter().enumerate() {
+            let claims = rng.bytes(len);
+            let footer = &footers[i % footers.len()];
+            let aad = &aads[i % aads.len()];
+            if let Some(s) = seal_lib_fc::<B, P, SpyFooter, true>(rec, st, &km.seal, &claims, footer, aad, (false, false), None) {
+                present_fc::<B, P, SpyFooter, true>(rec, st, &s.text, &km.unseal, aad, DecodeMode::Ok, true, json!({"cls":"honest"}));
             }
         }
     }
@@ -683,6 +742,32 @@ where
             }
             // 10. header relabel: the same payload/footer under every other version and purpose
             relabel::<B, P>(rec, st, &s, km, &aad, &mut rng);
+        }
+    }
+    // the payload encoding is part of the header (vN.purpose. / vNc.purpose.): a token sealed as one encoding and
+    // presented as the other (header rewritten, everything else byte-identical) must fail authentication, both ways
+    for (vi, mlen) in [0usize, 23, 80].into_iter().enumerate() {
+        let footer: Vec<u8> = if vi == 1 { vec![] } else { rng.bytes(7) };
+        let aad: Vec<u8> = if has_aad && vi != 1 { rng.bytes(5) } else { vec![] };
+        rec.emit(json!({"ev":"Reset","scenario":format!("tamper-encoding-{}-{}-{}", B::NAME, purpose, mlen)}));
+        learn(rec, purpose, km);
+        let claims = rng.bytes(mlen);
+        let (hs, hc) = (header_c::<B, P, false>(), header_c::<B, P, true>());
+        if let Some(s) = seal_lib_fc::<B, P, SpyFooter, true>(rec, st, &km.seal, &claims, &footer, &aad, (false, false), None) {
+            let stripped = format!("{}{}", hs, &s.text[hc.len()..]);
+            for (k, m) in [DecodeMode::Panic, DecodeMode::Ok, DecodeMode::Fail].into_iter().enumerate() {
+                present_fc::<B, P, SpyFooter, false>(rec, st, &stripped, &km.unseal, &aad, m, k % 2 == 0, json!({"cls":"encoding-relabel","from":"c","to":""}));
+            }
+            // unmodified, to the parser of the other encoding: not even well-formed
+            present_fc::<B, P, SpyFooter, false>(rec, st, &s.text, &km.unseal, &aad, DecodeMode::Panic, true, json!({"cls":"encoding-foreign","from":"c","to":""}));
+            present_fc::<B, P, SpyFooter, true>(rec, st, &s.text, &km.unseal, &aad, DecodeMode::Ok, true, json!({"cls":"honest"}));
+        }
+        if let Some(s) = seal_lib_fc::<B, P, SpyFooter, false>(rec, st, &km.seal, &claims, &footer, &aad, (false, false), None) {
+            let added = format!("{}{}", hc, &s.text[hs.len()..]);
+            for (k, m) in [DecodeMode::Panic, DecodeMode::Ok, DecodeMode::Fail].into_iter().enumerate() {
+                present_fc::<B, P, SpyFooter, true>(rec, st, &added, &km.unseal, &aad, m, k % 2 == 0, json!({"cls":"encoding-relabel","from":"","to":"c"}));
+            }
+            present_fc::<B, P, SpyFooter, true>(rec, st, &s.text, &km.unseal, &aad, DecodeMode::Panic, true, json!({"cls":"encoding-foreign","from":"","to":"c"}));
         }
     }
 }
